@@ -37,9 +37,39 @@ def gen(tier, seed):
         u, v = random_vector(rnd, pmax=3, mmax=3), random_vector(rnd, pmax=3, mmax=3)
         V = v["U"]
         if i % 5 == 0:
-            V = [x + 1 for x in V]          # different interval
+            V = [x + 1 for x in V]          # different interval (overlapping)
         cases.append({"U": fsl(u["U"]), "p": u["p"], "V": fsl(V), "q": v["p"], "kind": "random",
                       "shared": len(set(u["U"]) & set(V)) - 2})
+    # pairs on different intervals in every relative position (nested with ends on knots of the other or not, one end shared,
+    # overlapping, touching, disjoint), both operand orders are exercised by the case itself: all must raise ValueError
+    for i in range(60 if tier == "quick" else 400):
+        u = random_vector(rnd, pmax=3, mmax=3)
+        U, p = u["U"], u["p"]
+        q = rnd.randint(0, 3)
+        inner = sorted(set(U))
+        mode = rnd.choice(("nested_on_knots", "nested_free", "share_left", "share_right", "touch", "disjoint", "contains"))
+        lo, hi = U[0], U[-1]
+        if mode == "nested_on_knots" and len(inner) >= 3:
+            a, b = sorted(rnd.sample(inner, 2))
+            if (a, b) == (lo, hi):
+                a = inner[1]
+        elif mode == "share_left":
+            a, b = lo, rnd.choice(inner[1:-1] or [lo + F(1, 3)])
+        elif mode == "share_right":
+            a, b = rnd.choice(inner[1:-1] or [hi - F(1, 3)]), hi
+        elif mode == "touch":
+            a, b = hi, hi + 2
+        elif mode == "disjoint":
+            a, b = hi + 1, hi + 3
+        elif mode == "contains":
+            a, b = lo - rnd.choice((0, 1)), hi + 1
+        else:
+            a, b = lo + F(1, 7), hi - F(1, 11)
+        mid = [k for k in inner if a < k < b]
+        ks = sorted(rnd.sample(mid, min(len(mid), rnd.randint(0, 2))))
+        V = [a] * (q + 1) + sum(([k] * rnd.randint(1, q + 1) for k in ks), []) + [b] * (q + 1)
+        cases.append({"U": fsl(U), "p": p, "V": fsl(V), "q": q, "kind": "intervals-" + mode,
+                      "shared": len(set(U) & set(V))})
     return cases
 
 
